@@ -36,6 +36,10 @@ func (s *fileDisk) Finalize() {
 		s.finalSize = lastPart.offset + lastPart.size
 	}
 
+	// make sure that the file on disk is as long as its parts
+	// (a part may end with a seek past its end that is not followed by a write)
+	s.f.Truncate(int64(s.finalSize)) //nolint:errcheck
+
 	// remove file from memory; we will use disk from now on
 	for _, p := range s.parts {
 		p.buffer = nil
